@@ -218,6 +218,8 @@ def check_C13(ctx):
     try:
         import checks_fol
         checks_fol.c13_fol_part(ctx)
+        import checks_quant
+        checks_quant.c13_quant_part(ctx)
     except (ImportError, AttributeError):
         ctx.assumptions.append("first-order / quantifier part not yet covered by this check")
     return ctx.finish("proof", pr, st, rule=RULE_K3 + "; C13 monitor: returned amount vs before/after snapshot of all objects")
@@ -410,6 +412,63 @@ def mon_c07(sc, obs):
     return None
 
 
+@monitor("c07_sequential")
+def mon_c07_seq(sc, obs):
+    """the same knowledge and data: all roots in one add_knowledge call vs one call per root in another order; infer() ends
+    in the same bounds (when the first run is contradiction-free and both converge) and reports the same contradiction verdict"""
+    if whole_error(obs):
+        return None
+    kb, roots1, roots2, data, ops1, ops2 = sc[1:7]
+    o1, o2 = obs
+    if whole_error(o1) or whole_error(o2):
+        return ("no exception", "raised", None)
+    s1 = list(states_of([3, kb, roots1, data, ops1], o1))
+    s2 = list(states_of([3, kb, roots2, data, ops2], o2))
+    if any(x[3] is None for x in s1) or any(x[3] is None for x in s2):
+        return None
+    i1 = [x for x in s1 if x[0][0] == 5][-1]
+    i2 = [x for x in s2 if x[0][0] == 5][-1]
+    if i1[4][0] >= 60 or i2[4][0] >= 60:
+        return None
+    fin1, fin2 = i1[3], i2[3]
+    clean1 = not any(arrested_py(kb, fin1, i) for i in range(len(kb)) if kb[i][0] != 0) and not any(crossed(sx.q(kb[i][2][0]), *fin1[i]) for i in range(len(kb)))
+    if not clean1:
+        return None
+    for i in range(len(kb)):
+        a, b = fin1[i], fin2[i]
+        tol = F(0) if all(x.denominator <= 1024 for x in a + b) else FLOAT_TOL
+        if abs(a[0] - b[0]) > tol or abs(a[1] - b[1]) > tol:
+            return (f"roots {roots1} added in one call and roots added one call at a time ({roots2} then {[op[1] for op in ops2 if op[0] == 13]}) infer the same bounds: object {i} = {a}", f"{b}", None)
+    if bool(o1[-1][0]) != bool(o2[-1][0]):
+        return ("has_contradiction() does not depend on how the roots were added", f"{bool(o1[-1][0])} vs {bool(o2[-1][0])}", None)
+    return None
+
+
+def c07_sequential_part(ctx):
+    rng = ctx.rng("c07seq")
+    scs = []
+    n = 150 if ctx.quick else 2000
+    while len(scs) < n:
+        kb = gen_prop.gen_kb(rng, weighted=rng.random() < 0.2, nforms=rng.choice([2, 3, 4, 5]), twins=0.5)
+        roots = gen_prop.roots_of(rng, kb, extra=0.0)
+        kb, roots = gen_prop.restrict(kb, roots)
+        if len(roots) < 2:
+            continue
+        data, hidden = gen_prop.gen_data(rng, kb, rng.choice(["consistent", "consistent", "free"]))
+        dops = [[8, i, b] for i, b in data]
+        order = list(roots)
+        rng.shuffle(order)
+        ops1 = dops + [[5, -1, 60], [9]]
+        ops2 = [[13, r] for r in order[1:]] + dops + [[5, -1, 60], [9]]
+        scs.append([4, kb, roots, [order[0]], [], ops1, ops2])
+    m, impl, lines = ctx.correspond("K4 pair: all roots in one add_knowledge call vs one call per root (structural twins likely)", scs, per_proc=60,
+                                    nontrivial=lambda s, mo: True)
+    for sc, line, o in zip(scs, lines, impl[0]):
+        r = MONITORS["c07_sequential"](sx.loads(line), sx.loads(o))
+        if r:
+            ctx.violation("c07_sequential", line, 0, r[0], r[1], r[2])
+
+
 def check_C07(ctx):
     st, pr = standard_prologue(ctx)
     scs, meta = gen_c07(ctx, 250 if ctx.quick else 3000)
@@ -421,7 +480,8 @@ def check_C07(ctx):
         if r:
             ctx.violation("c07_confluence", line, 0, r[0], r[1], r[2])
     ctx.cov["distribution"] = dist(meta)
-    return ctx.finish("proof", pr, st, rule="K4 pairs: same KB and data; run 1 = infer() under one root order, run 2 = 6-8 rounds of every node-level upward/downward in random order (+ occasional model passes) "
+    c07_sequential_part(ctx)
+    return ctx.finish("proof", pr, st, rule="sequential registration: the same KB (structural twins 50%) with all roots in one add_knowledge call vs one call per root in a shuffled order, data added afterwards, infer() compared; K4 pairs: same KB and data; run 1 = infer() under one root order, run 2 = 6-8 rounds of every node-level upward/downward in random order (+ occasional model passes) "
                       "under a shuffled root order, followed by a verification sweep; monitor: when run 1 ends contradiction-free and run 2 is quiescent the bounds are identical, and no state of run 2 is tighter than run 1's fixpoint")
 
 
